@@ -1,5 +1,6 @@
 import Proofs.C10.Bare
 import Proofs.C10.Checker
+import Proofs.E2E.C10
 import Props.C09
 /-!
 # C10 — what the library builds and signs, its own engine accepts; tampering is rejected
@@ -14,10 +15,11 @@ stream), and the signature checker handed to the evaluator is `Btc.Spend.checker
   template needs them -- hence the default, the standard and the all-flags sets): **p2pk**, **p2pkh**, **p2wpkh**,
   **p2sh-p2wpkh**, **bare / p2wsh / p2sh-p2wsh k-of-n multisig** (`1 ≤ k ≤ n ≤ 16`, any subset of k signers in key
   order, NULLDUMMY dummy; the CHECKMULTISIG loop by induction on the key list), **taproot key path** and **taproot
-  script path with a single-key leaf**.  In these the signature check is an oracle hypothesis; `sign_passes_checkECDSA` /
-  `sign_passes_checkSchnorr` prove that the COMPOSED checker (`Spend.checkerOf`) accepts what the model's `sign` makes
-  (C02-T1 + DER round trip, C03-T1 + codec, over any `Lawful` group), and `closure_p2wpkh_signed` is the end-to-end
-  instance.  What is still not proved is listed at the end of this file.
+  script path with a single-key leaf**.  In the `closure_*` theorems the signature check is an oracle hypothesis;
+  `sign_passes_checkECDSA` / `sign_passes_checkSchnorr` prove that the COMPOSED checker (`Spend.checkerOf`) accepts what the
+  model's `sign` makes (C02-T1 + DER round trip, C03-T1 + codec, over any `Lawful` group), the `closure_*_signed`
+  corollaries compose the two per template, and the `*_secp256k1` theorems state it on the executed instance
+  `Spend.secpCrypto` with no hypothesis about the group.  What is still not proved is listed at the end of this file.
 * T2 (tamper ⇒ different message): what the engine hands to signature verification is an injective image of the
   fields the hash type commits to, or an explicit hash collision exists.  Rejection itself rests on unforgeability,
   which is ASSUMED.
@@ -213,14 +215,15 @@ theorem closure_taproot_pk_leaf (env : VerifyEnv) (q x sig control : Bytes) (m :
 
 /-- the matching loop: whenever the signatures can be matched IN ORDER against a sub-list of the keys (any subset of
     `k` signers in key order -- `Aligned`), every signature and key passes its encoding check and the oracle answers
-    for every pair, OP_CHECKMULTISIG's loop answers `true`; for ALL key lists and ALL fuel. -/
-theorem multisig_loop_accepts (cx : Ctx) (sc : Bytes) (keys sigs : List Bytes) (fuel : Nat)
+    for every pair, OP_CHECKMULTISIG's loop answers `true`; for ALL key lists and any fuel above the key count (`execMultisig` gives
+    `nKeys + nSigs + 1`). -/
+theorem multisig_loop_accepts (cx : Ctx) (sc : Bytes) (keys sigs : List Bytes) (fuel : Nat) (hf : keys.length < fuel)
     (hal : Aligned (chkOk cx sc) sigs keys)
     (henc : ∀ s ∈ sigs, checkSignatureEncoding cx.flags s = .ok ())
     (hpke : ∀ k ∈ keys, checkPubKeyEncoding cx.flags cx.sigversion k = .ok ())
     (htot : ∀ s ∈ sigs, ∀ k ∈ keys, ∃ b, cx.checker.checkECDSA s k sc cx.sigversion = .ok b) :
     multisigLoop cx sc fuel sigs keys = .ok true :=
-  multisigLoop_aligned cx sc keys sigs fuel hal henc hpke htot
+  multisigLoop_aligned cx sc keys sigs fuel hf hal henc hpke htot
 
 /-- T1 (bare k-of-n multisig, `1 ≤ k ≤ n ≤ 16`, compressed keys).  For EVERY flag set (NULLDUMMY included: the dummy is
     the empty push): scriptSig `OP_0 <sig_1> … <sig_k>` against `k <keys> n CHECKMULTISIG` is accepted, given the
@@ -269,6 +272,15 @@ theorem closure_multisig_p2sh_p2wsh (env : VerifyEnv) (h hr : Bytes) (keys sigs 
   have : serializePushes [p2wsh h] = pushData (wshSpk h) := by simp [serializePushes, p2wsh_eq]
   rw [this]
   exact verify_p2sh_p2wsh_multisig env h hr keys sigs hl hrl hP hW hnz hhr hh hn hk hkeys hsl hal henc htot
+
+/-- the hash types a psbt input may ask the signer for (regenerated from `sig_hash.SIG_HASH_TYPES`) are ones the engine's
+    checks define: `IsDefinedHashtypeSignature` (STRICTENC) for the six ECDSA ones, BIP341's seven for taproot, and the
+    signer's fall-backs ALL / DEFAULT are among them -/
+theorem signer_hash_types_defined :
+    (∀ t ∈ Gen.Spend.ECDSA_HASH_TYPES, 1 ≤ t % 128 ∧ t % 128 ≤ 3 ∧ t < 256) ∧
+    (∀ t ∈ Gen.Spend.TAPROOT_HASH_TYPES, tapValidType t = true) ∧
+    Gen.Spend.SIGHASH_ALL ∈ Gen.Spend.ECDSA_HASH_TYPES ∧ Gen.Spend.SIGHASH_DEFAULT ∈ Gen.Spend.TAPROOT_HASH_TYPES := by
+  decide
 
 /-- the three flag sets the harness runs (regenerated from `engine/flags.py`) all have P2SH and WITNESS -/
 theorem standard_flag_sets :
@@ -347,6 +359,207 @@ theorem closure_p2wpkh_signed {α G : Type} [AddCommGroup G] (C : Crypto α) (L 
   closure_p2wpkh vk (envOf C flags cx) h _ pk hl hW hnz hh henc hslen hpk
     (Spend.sign_passes_checkECDSA C L cx (p2pkh h) .WITNESS_V0 ht hht hk pk Q hp hQ hsign der hder hmax)
 
+/-! ### `_signed` corollaries: every closure above with the signature oracle DISCHARGED by the model's signer
+
+`envOf C flags cx` is the composed engine (C08 evaluator, C09 digests, C02 / C03 verification) over any `Lawful` group.
+Hypotheses left are about bytes: hash commitments, key encodings, `checkSignatureEncoding`, lengths. -/
+
+/-- T1 end to end (p2pk). -/
+theorem closure_p2pk_signed {α G : Type} [AddCommGroup G] (C : Crypto α) (L : Lawful C.o G) (vk : Bytes → Bool)
+    (flags : Nat) (cx : TxCtx) (pk : Bytes) (Q : α) (ht : Nat) (hht : ht < 256) {q k r s kid : Int}
+    (hpk : isCompressedPubKey pk = true) (hp : C.parsePub pk = some Q) (hQ : L.abs Q = q • L.abs C.o.gen)
+    (hk : 0 < k ∧ k < C.o.n)
+    (hsign : Ecdsa.signRecoverable C.o
+      (Rfc6979.challenge C.o.n (engineEcdsaDigest C cx (p2pk pk) .BASE ht)) q k true = .ok (r, s, kid))
+    (der : Bytes) (hder : Der.serialize r s = .ok der) (hmax : der.length ≤ Gen.VarInt.MAX_SIZE)
+    (henc : checkSignatureEncoding flags (der ++ [UInt8.ofNat ht]) = .ok ())
+    (hs2 : 2 ≤ (der ++ [UInt8.ofNat ht]).length) (hs : (der ++ [UInt8.ofNat ht]).length < 76)
+    (hne : der ++ [UInt8.ofNat ht] ≠ pk) :
+    ∃ ss wit, finalizedInput vk ⟨some (p2pk pk), [], [], [(pk, der ++ [UInt8.ofNat ht])]⟩ = .ok (ss, wit) ∧
+      verifyScript (envOf C flags cx) ss (p2pk pk) wit = .ok () :=
+  closure_p2pk vk (envOf C flags cx) _ pk henc hs2 hs hpk hne
+    (Spend.sign_passes_checkECDSA C L cx (p2pk pk) .BASE ht hht hk pk Q hp hQ hsign der hder hmax)
+
+/-- T1 end to end (p2pkh). -/
+theorem closure_p2pkh_signed {α G : Type} [AddCommGroup G] (C : Crypto α) (L : Lawful C.o G) (vk : Bytes → Bool)
+    (flags : Nat) (cx : TxCtx) (h pk : Bytes) (Q : α) (ht : Nat) (hht : ht < 256) {q k r s kid : Int}
+    (hl : h.length = 20) (hh : C.ripemd160 (C.S pk) = h)
+    (hpk : isCompressedPubKey pk = true) (hp : C.parsePub pk = some Q) (hQ : L.abs Q = q • L.abs C.o.gen)
+    (hk : 0 < k ∧ k < C.o.n)
+    (hsign : Ecdsa.signRecoverable C.o
+      (Rfc6979.challenge C.o.n (engineEcdsaDigest C cx (p2pkh h) .BASE ht)) q k true = .ok (r, s, kid))
+    (der : Bytes) (hder : Der.serialize r s = .ok der) (hmax : der.length ≤ Gen.VarInt.MAX_SIZE)
+    (henc : checkSignatureEncoding flags (der ++ [UInt8.ofNat ht]) = .ok ())
+    (hs2 : 2 ≤ (der ++ [UInt8.ofNat ht]).length) (hs : (der ++ [UInt8.ofNat ht]).length < 76)
+    (hne : der ++ [UInt8.ofNat ht] ≠ h) :
+    ∃ ss wit, finalizedInput vk ⟨some (p2pkh h), [], [], [(pk, der ++ [UInt8.ofNat ht])]⟩ = .ok (ss, wit) ∧
+      verifyScript (envOf C flags cx) ss (p2pkh h) wit = .ok () :=
+  closure_p2pkh vk (envOf C flags cx) h _ pk hl hh henc hs2 hs hpk hne
+    (Spend.sign_passes_checkECDSA C L cx (p2pkh h) .BASE ht hht hk pk Q hp hQ hsign der hder hmax)
+
+/-- T1 end to end (p2sh-p2wpkh). -/
+theorem closure_p2sh_p2wpkh_signed {α G : Type} [AddCommGroup G] (C : Crypto α) (L : Lawful C.o G) (vk : Bytes → Bool)
+    (flags : Nat) (cx : TxCtx) (h hr pk : Bytes) (Q : α) (ht : Nat) (hht : ht < 256) {q k r s kid : Int}
+    (hl : h.length = 20) (hrl : hr.length = 20)
+    (hP : has flags FLAG_P2SH = true) (hW : has flags FLAG_WITNESS = true) (hnz : castToBool h = true)
+    (hhr : C.ripemd160 (C.S (p2wpkh h)) = hr) (hh : C.ripemd160 (C.S pk) = h)
+    (hpk : isCompressedPubKey pk = true) (hp : C.parsePub pk = some Q) (hQ : L.abs Q = q • L.abs C.o.gen)
+    (hk : 0 < k ∧ k < C.o.n)
+    (hsign : Ecdsa.signRecoverable C.o
+      (Rfc6979.challenge C.o.n (engineEcdsaDigest C cx (p2pkh h) .WITNESS_V0 ht)) q k true = .ok (r, s, kid))
+    (der : Bytes) (hder : Der.serialize r s = .ok der) (hmax : der.length ≤ Gen.VarInt.MAX_SIZE)
+    (henc : checkSignatureEncoding flags (der ++ [UInt8.ofNat ht]) = .ok ())
+    (hslen : (der ++ [UInt8.ofNat ht]).length ≤ 520) :
+    ∃ ss wit, finalizedInput vk ⟨some (p2sh hr), p2wpkh h, [], [(pk, der ++ [UInt8.ofNat ht])]⟩ = .ok (ss, wit) ∧
+      verifyScript (envOf C flags cx) ss (p2sh hr) wit = .ok () :=
+  closure_p2sh_p2wpkh vk (envOf C flags cx) h hr _ pk hl hrl hP hW hnz hhr hh henc hslen hpk
+    (Spend.sign_passes_checkECDSA C L cx (p2pkh h) .WITNESS_V0 ht hht hk pk Q hp hQ hsign der hder hmax)
+
+/-- a signature element the model's signer made for the key octets `pk`, over the engine's digest for `(sc, sv)` -/
+def MadeBy {α G : Type} [AddCommGroup G] (C : Crypto α) (L : Lawful C.o G) (cx : TxCtx) (sc : Bytes) (sv : SigVersion)
+    (sig pk : Bytes) : Prop :=
+  ∃ (ht : Nat) (q k r s kid : Int) (Q : α) (der : Bytes), ht < 256 ∧ (0 < k ∧ k < C.o.n) ∧ C.parsePub pk = some Q ∧
+    L.abs Q = q • L.abs C.o.gen ∧
+    Ecdsa.signRecoverable C.o (Rfc6979.challenge C.o.n (engineEcdsaDigest C cx sc sv ht)) q k true = .ok (r, s, kid) ∧
+    Der.serialize r s = .ok der ∧ der.length ≤ Gen.VarInt.MAX_SIZE ∧ sig = der ++ [UInt8.ofNat ht]
+
+theorem aligned_mono {chk chk' : Bytes → Bytes → Prop} (h : ∀ s k, chk s k → chk' s k) {ss ks : List Bytes}
+    (ha : Aligned chk ss ks) : Aligned chk' ss ks := by
+  induction ha with
+  | nil ks => exact .nil ks
+  | take hc _ ih => exact .take (h _ _ hc) ih
+  | skip _ ih => exact .skip ih
+
+/-- T1 end to end (p2wsh k-of-n multisig): `k` signatures MADE BY the signer for a sub-list of the keys, in key order. -/
+theorem closure_multisig_p2wsh_signed {α G : Type} [AddCommGroup G] (C : Crypto α) (L : Lawful C.o G)
+    (flags : Nat) (cx : TxCtx) (h : Bytes) (keys sigs : List Bytes) (hl : h.length = 32)
+    (hW : has flags FLAG_WITNESS = true) (hnz : castToBool h = true)
+    (hh : C.S (multisig sigs.length keys) = h)
+    (hn : 1 ≤ keys.length ∧ keys.length ≤ 16) (hk : 1 ≤ sigs.length ∧ sigs.length ≤ keys.length)
+    (hkeys : ∀ x ∈ keys, isCompressedPubKey x = true) (hsl : ∀ s ∈ sigs, s.length ≤ 520)
+    (hal : Aligned (MadeBy C L cx (multisig sigs.length keys) .WITNESS_V0) sigs keys)
+    (henc : ∀ s ∈ sigs, checkSignatureEncoding flags s = .ok ()) :
+    verifyScript (envOf C flags cx) [] (p2wsh h) (([] :: sigs) ++ [multisig sigs.length keys]) = .ok () :=
+  closure_multisig_p2wsh (envOf C flags cx) h keys sigs hl hW hnz hh hn hk hkeys hsl
+    (aligned_mono (fun sig pk ⟨ht, _, _, _, _, _, Q, der, hht, hk', hp, hQ, hsign, hder, hmax, e⟩ => by
+      subst e
+      exact Spend.sign_passes_checkECDSA C L cx _ .WITNESS_V0 ht hht hk' pk Q hp hQ hsign der hder hmax) hal)
+    henc (fun s _ x _ => checkECDSA_total C cx s x _ _)
+
+/-- T1 end to end (bare k-of-n multisig); `hsc` (FindAndDelete finds no pushed signature) stays a hypothesis. -/
+theorem closure_multisig_bare_signed {α G : Type} [AddCommGroup G] (C : Crypto α) (L : Lawful C.o G)
+    (flags : Nat) (cx : TxCtx) (keys sigs : List Bytes)
+    (hn : 1 ≤ keys.length ∧ keys.length ≤ 16) (hk : 1 ≤ sigs.length ∧ sigs.length ≤ keys.length)
+    (hkeys : ∀ x ∈ keys, isCompressedPubKey x = true) (hs : ∀ s ∈ sigs, 2 ≤ s.length ∧ s.length ≤ 75)
+    (hsc : multisigScriptCode (evalCtx (envOf C flags cx) .BASE (multisig sigs.length keys)) sigs.reverse
+      (multisig sigs.length keys) = .ok (multisig sigs.length keys))
+    (hal : Aligned (MadeBy C L cx (multisig sigs.length keys) .BASE) sigs keys)
+    (henc : ∀ s ∈ sigs, checkSignatureEncoding flags s = .ok ()) :
+    verifyScript (envOf C flags cx) (serializePushes ([] :: sigs)) (multisig sigs.length keys) [] = .ok () :=
+  closure_multisig_bare (envOf C flags cx) keys sigs hn hk hkeys hs hsc
+    (aligned_mono (fun sig pk ⟨ht, _, _, _, _, _, Q, der, hht, hk', hp, hQ, hsign, hder, hmax, e⟩ => by
+      subst e
+      exact Spend.sign_passes_checkECDSA C L cx _ .BASE ht hht hk' pk Q hp hQ hsign der hder hmax) hal)
+    henc (fun s _ x _ => checkECDSA_total C cx s x _ _)
+
+/-- T1 end to end (taproot key path): the witness `[sig]` with `sig` = the 64 bytes of `ssa.sign_` by the (tweaked) key
+    `q` over BIP341's key-path message of THIS transaction (+ hash-type byte unless DEFAULT), `prog` the 32-byte x-only
+    key of `q·G` (the output key: C12 `key_agreement`). -/
+theorem closure_taproot_key_signed {α G : Type} [AddCommGroup G] (C : Crypto α) (L : Lawful C.o G)
+    (hps : C.prm.pSize = 32) (hns : C.prm.nSize = 32) (hp : C.o.p ≤ 2 ^ 256) (hn : C.o.n ≤ 2 ^ 256)
+    (flags : Nat) (cx : TxCtx) (prog : Bytes) (ht : Nat) (hht : ht < 256)
+    (hq : prog.length = 32) (hW : has flags FLAG_WITNESS = true) (hnz : castToBool prog = true)
+    (hdef : bip341Defined cx.tx cx.nIn cx.spent ht = true)
+    (fuel : Nat) (q : Int) (aux : Bytes) (sg : Schnorr.Sig)
+    (hsign : Schnorr.sign C.o C.prm fuel (engineTapDigest C cx .TAPROOT ht 0xFFFFFFFF) q aux = .ok sg)
+    (sig64 : Bytes) (hser : Schnorr.serialize C.o C.prm sg = .ok sig64)
+    (hpk : ((ofBE prog : Nat) : Int) = C.o.x (C.o.mul q C.o.gen)) :
+    verifyScript (envOf C flags cx) [] (p2tr prog) [sig64 ++ (if ht = 0 then [] else [UInt8.ofNat ht])] = .ok () :=
+  verify_tr_key (envOf C flags cx) prog _ hq hW hnz
+    (Spend.sign_passes_checkSchnorr C L hps hns hp hn cx .TAPROOT ht _ hht hdef fuel q aux sg hsign sig64 hser prog hpk)
+
+/-- T1 end to end (taproot script path, single-key leaf): `sig` made by the LEAF key over BIP342's message. -/
+theorem closure_taproot_pk_leaf_signed {α G : Type} [AddCommGroup G] (C : Crypto α) (L : Lawful C.o G)
+    (hps : C.prm.pSize = 32) (hns : C.prm.nSize = 32) (hp : C.o.p ≤ 2 ^ 256) (hn : C.o.n ≤ 2 ^ 256)
+    (flags : Nat) (cx : TxCtx) (prog x control : Bytes) (m ht : Nat) (hht : ht < 256)
+    (hq : prog.length = 32) (hl : x.length = 32) (hW : has flags FLAG_WITNESS = true) (hnz : castToBool prog = true)
+    (hcl : control.length = 33 + 32 * m) (hm : m ≤ 128) (hv : getB control 0 / 2 * 2 = 0xc0)
+    (hcom : commitment C control prog (C.prm.TH "TapLeaf".toUTF8.toList
+      (UInt8.ofNat 0xc0 :: (Core.compactSize (pkLeaf x).length ++ pkLeaf x))) = .ok true)
+    (hdef : bip341Defined cx.tx cx.nIn cx.spent ht = true)
+    (fuel : Nat) (q : Int) (aux : Bytes) (sg : Schnorr.Sig)
+    (hsign : Schnorr.sign C.o C.prm fuel (engineTapDigest C cx .TAPSCRIPT ht 0xFFFFFFFF) q aux = .ok sg)
+    (sig64 : Bytes) (hser : Schnorr.serialize C.o C.prm sg = .ok sig64)
+    (hpk : ((ofBE x : Nat) : Int) = C.o.x (C.o.mul q C.o.gen)) :
+    verifyScript (envOf C flags cx) [] (p2tr prog)
+      [sig64 ++ (if ht = 0 then [] else [UInt8.ofNat ht]), pkLeaf x, control] = .ok () := by
+  have h64 := Spend.serialize_length C hps hns sg sig64 hser
+  refine closure_taproot_pk_leaf (envOf C flags cx) prog x _ control m hq hl hW hnz hcl hm hv ?_ ?_ hcom
+    (Spend.sign_passes_checkSchnorr C L hps hns hp hn cx .TAPSCRIPT ht _ hht hdef fuel q aux sg hsign sig64 hser x hpk)
+  · cases sig64 with
+    | nil => simp at h64
+    | cons _ _ => rfl
+  · split <;> simp [h64]
+
+/-! ### on the EXECUTED instance: `secpCrypto` = `Btc.EC.ops secp256k1` + SHA-256 / RIPEMD-160 / SHA-1 + BIP340's tagged
+hash + C12's `point_from_octets` as `parsePub` (what `drv_c10` runs against btclib's engine).  No `Lawful` hypothesis and
+nothing assumed about the curve: C02-T1 / C03-T1 on `Btc.EC.ops secp256k1` are the C01 capstone's (primality of p, n by
+Pratt certificates). -/
+
+/-- ECDSA on secp256k1: what `_sign_recoverable_` makes over the engine's digest passes the composed checker -/
+theorem sign_passes_checkECDSA_secp256k1 (cx : TxCtx) (sc : Bytes) (sv : SigVersion) (ht : Nat) (hht : ht < 256)
+    {q k r s kid : Int} (hk : 0 < k ∧ k < EC.secp256k1.n) (pk : Bytes)
+    (hp : secpParsePub pk = some ((EC.ops EC.secp256k1).mul q EC.secp256k1.G))
+    (hsign : Ecdsa.signRecoverable (EC.ops EC.secp256k1)
+      (Rfc6979.challenge EC.secp256k1.n (engineEcdsaDigest secpCrypto cx sc sv ht)) q k true = .ok (r, s, kid))
+    (der : Bytes) (hder : Der.serialize r s = .ok der) (hmax : der.length ≤ Gen.VarInt.MAX_SIZE) :
+    checkECDSA secpCrypto cx (der ++ [UInt8.ofNat ht]) pk sc sv = .ok true :=
+  Btc.E2E.sign_passes_checkECDSA_secp256k1 cx sc sv ht hht hk pk hp hsign der hder hmax
+
+/-- BIP340 on secp256k1: what `ssa.sign_` makes over the engine's message passes the composed checker -/
+theorem sign_passes_checkSchnorr_secp256k1 (cx : TxCtx) (sv : SigVersion) (ht pos : Nat) (hht : ht < 256)
+    (hdef : bip341Defined cx.tx cx.nIn cx.spent ht = true)
+    (fuel : Nat) (q : Int) (aux : Bytes) (sg : Schnorr.Sig)
+    (hsign : Schnorr.sign (EC.ops EC.secp256k1) bip340Params fuel (engineTapDigest secpCrypto cx sv ht pos) q aux = .ok sg)
+    (sig64 : Bytes) (hser : Schnorr.serialize (EC.ops EC.secp256k1) bip340Params sg = .ok sig64)
+    (pubkey : Bytes)
+    (hpk : ((ofBE pubkey : Nat) : Int) = (EC.ops EC.secp256k1).x ((EC.ops EC.secp256k1).mul q EC.secp256k1.G)) :
+    checkSchnorr secpCrypto cx (sig64 ++ (if ht = 0 then [] else [UInt8.ofNat ht])) pubkey sv pos = none :=
+  Btc.E2E.sign_passes_checkSchnorr_secp256k1 cx sv ht pos hht hdef fuel q aux sg hsign sig64 hser pubkey hpk
+
+/-- **T1 end to end on secp256k1 (p2wpkh)**: sign with `Btc.EC.ops secp256k1` over the BIP143 digest of this transaction,
+    DER-serialize, finalize, and the composed engine over the same arithmetic and real hashes accepts -- for every flag
+    set with WITNESS.  Left as hypotheses: the program is hash160 of the key octets and not "false", the octets are a
+    compressed encoding that reads back as `q·G`, and the signature bytes pass Core's encoding checks under these flags. -/
+theorem closure_p2wpkh_secp256k1 (vk : Bytes → Bool) (flags : Nat) (cx : TxCtx) (h pk : Bytes) (ht : Nat) (hht : ht < 256)
+    {q k r s kid : Int} (hl : h.length = 20) (hW : has flags FLAG_WITNESS = true) (hnz : castToBool h = true)
+    (hh : ripemd160 (sha256 pk) = h) (hpk : isCompressedPubKey pk = true)
+    (hp : secpParsePub pk = some ((EC.ops EC.secp256k1).mul q EC.secp256k1.G)) (hk : 0 < k ∧ k < EC.secp256k1.n)
+    (hsign : Ecdsa.signRecoverable (EC.ops EC.secp256k1)
+      (Rfc6979.challenge EC.secp256k1.n (engineEcdsaDigest secpCrypto cx (p2pkh h) .WITNESS_V0 ht)) q k true =
+        .ok (r, s, kid))
+    (der : Bytes) (hder : Der.serialize r s = .ok der) (hmax : der.length ≤ Gen.VarInt.MAX_SIZE)
+    (henc : checkSignatureEncoding flags (der ++ [UInt8.ofNat ht]) = .ok ()) (hslen : (der ++ [UInt8.ofNat ht]).length ≤ 520) :
+    ∃ ss wit, finalizedInput vk ⟨some (p2wpkh h), [], [], [(pk, der ++ [UInt8.ofNat ht])]⟩ = .ok (ss, wit) ∧
+      verifyScript (envOf secpCrypto flags cx) ss (p2wpkh h) wit = .ok () :=
+  closure_p2wpkh vk (envOf secpCrypto flags cx) h _ pk hl hW hnz hh henc hslen hpk
+    (Btc.E2E.sign_passes_checkECDSA_secp256k1 cx (p2pkh h) .WITNESS_V0 ht hht hk pk hp hsign der hder hmax)
+
+/-- **T1 end to end on secp256k1 (taproot key path)**: `ssa.sign_` with `Btc.EC.ops secp256k1` by the (tweaked) key `q` over
+    BIP341's key-path message, the witness `[sig]`, and the composed engine accepts, for every flag set with WITNESS;
+    `prog` is the 32-byte x-only key of `q·G`. -/
+theorem closure_taproot_key_secp256k1 (flags : Nat) (cx : TxCtx) (prog : Bytes) (ht : Nat) (hht : ht < 256)
+    (hq : prog.length = 32) (hW : has flags FLAG_WITNESS = true) (hnz : castToBool prog = true)
+    (hdef : bip341Defined cx.tx cx.nIn cx.spent ht = true)
+    (fuel : Nat) (q : Int) (aux : Bytes) (sg : Schnorr.Sig)
+    (hsign : Schnorr.sign (EC.ops EC.secp256k1) bip340Params fuel
+      (engineTapDigest secpCrypto cx .TAPROOT ht 0xFFFFFFFF) q aux = .ok sg)
+    (sig64 : Bytes) (hser : Schnorr.serialize (EC.ops EC.secp256k1) bip340Params sg = .ok sig64)
+    (hpk : ((ofBE prog : Nat) : Int) = (EC.ops EC.secp256k1).x ((EC.ops EC.secp256k1).mul q EC.secp256k1.G)) :
+    verifyScript (envOf secpCrypto flags cx) [] (p2tr prog) [sig64 ++ (if ht = 0 then [] else [UInt8.ofNat ht])] = .ok () :=
+  verify_tr_key (envOf secpCrypto flags cx) prog _ hq hW hnz
+    (Btc.E2E.sign_passes_checkSchnorr_secp256k1 cx .TAPROOT ht _ hht hdef fuel q aux sg hsign sig64 hser prog hpk)
+
 /-! ## T2 — tampering changes the message (or exhibits a collision) -/
 
 /-- T2 (legacy inputs: p2pk, p2pkh, bare and p2sh multisig).  If the engine recomputes the SAME digest for input `i`
@@ -420,6 +633,65 @@ theorem tamper_taproot {α : Type} (C : Crypto α) (cx cx' : TxCtx) (sv : SigVer
     ∃ a b, Collides C.S a b := by
   simp only [engineTapDigest] at h
   exact Props.C09.bip341_digest_commits C.S _ _ _ _ _ _ _ _ _ _ _ _ h
+
+/-- T2 (taproot), the committed-FIELD list: the same BIP341 / BIP342 digest for two (transaction, input, spent outputs,
+    hash type, leaf, codesep position) means -- `Props.C09.bip341_commits` applied to the equal `SigMsg`s -- the same hash
+    type, version, lock time and BIP342 extension (tapleaf hash, key version, codesep position), annex presence; without
+    ANYONECANPAY the same input index and every outpoint / spent AMOUNT / spent SCRIPT / SEQUENCE (of EVERY input, also
+    under NONE and SINGLE); with it this input's own; the outputs as the type prescribes -- each OR an explicit SHA-256
+    collision. -/
+theorem tamper_taproot_fields {α : Type} (C : Crypto α) (hS : ∀ x, (C.S x).length = 32) (cx cx' : TxCtx)
+    (sv : SigVersion) (ht ht' pos pos' : Nat)
+    (wf : cx.tx.WF) (wf' : cx'.tx.WF) (ws : ∀ o ∈ cx.spent, o.WF) (ws' : ∀ o ∈ cx'.spent, o.WF)
+    (hin : cx.nIn < cx.tx.vin.length) (hin' : cx'.nIn < cx'.tx.vin.length)
+    (hn : cx.nIn < 4294967296) (hn' : cx'.nIn < 4294967296) (hht : ht < 256) (hht' : ht' < 256)
+    (hlh : cx.leafHash.length = 32) (hlh' : cx'.leafHash.length = 32) (hpos : pos < 4294967296) (hpos' : pos' < 4294967296)
+    (h : engineTapDigest C cx sv ht pos = engineTapDigest C cx' sv ht' pos') :
+    (ht = ht' ∧ cx.tx.version = cx'.tx.version ∧ cx.tx.lockTime = cx'.tx.lockTime ∧
+      (sv = .TAPSCRIPT → cx.leafHash = cx'.leafHash ∧ pos = pos') ∧ cx.annex.isSome = cx'.annex.isSome ∧
+      (tapAcp ht = false → cx.nIn = cx'.nIn ∧
+        (cx.tx.vin.map (·.prev) = cx'.tx.vin.map (·.prev) ∨ Collides C.S (serPrevouts cx.tx) (serPrevouts cx'.tx)) ∧
+        (cx.spent.map (·.value) = cx'.spent.map (·.value) ∨ Collides C.S (serAmounts cx.spent) (serAmounts cx'.spent)) ∧
+        (cx.spent.map (·.spk) = cx'.spent.map (·.spk) ∨
+          Collides C.S (serScriptPubKeys cx.spent) (serScriptPubKeys cx'.spent)) ∧
+        (cx.tx.vin.map (·.sequence) = cx'.tx.vin.map (·.sequence) ∨
+          Collides C.S (serSequences cx.tx) (serSequences cx'.tx))) ∧
+      (tapAcp ht = true →
+        (cx.tx.vin.getD cx.nIn dfltIn).prev = (cx'.tx.vin.getD cx'.nIn dfltIn).prev ∧
+        (cx.tx.vin.getD cx.nIn dfltIn).sequence = (cx'.tx.vin.getD cx'.nIn dfltIn).sequence ∧
+        cx.spent.getD cx.nIn blankOut = cx'.spent.getD cx'.nIn blankOut) ∧
+      (tapNone ht = false → tapSingle ht = false →
+        cx.tx.vout = cx'.tx.vout ∨ Collides C.S (serOutputs cx.tx) (serOutputs cx'.tx)) ∧
+      (tapSingle ht = true →
+        cx.tx.vout.getD cx.nIn blankOut = cx'.tx.vout.getD cx'.nIn blankOut ∨
+          Collides C.S (serTxOut (cx.tx.vout.getD cx.nIn blankOut)) (serTxOut (cx'.tx.vout.getD cx'.nIn blankOut)))) ∨
+    ∃ a b, Collides C.S a b := by
+  rcases tamper_taproot C cx cx' sv ht ht' pos pos' h with e | c
+  · left
+    have we : ∀ e', (if sv == .TAPSCRIPT then some (⟨cx.leafHash, 0, pos⟩ : TapExt) else none) = some e' → e'.WF := by
+      intro e' he
+      split at he
+      · cases he
+        refine ⟨hlh, ?_, ?_⟩
+        · show (0 : Nat) < 256; decide
+        · show U32 (pos : Int); unfold U32; omega
+      · cases he
+    have we' : ∀ e', (if sv == .TAPSCRIPT then some (⟨cx'.leafHash, 0, pos'⟩ : TapExt) else none) = some e' → e'.WF := by
+      intro e' he
+      split at he
+      · cases he
+        refine ⟨hlh', ?_, ?_⟩
+        · show (0 : Nat) < 256; decide
+        · show U32 (pos' : Int); unfold U32; omega
+      · cases he
+    obtain ⟨c1, c2, c3, c4, c5, c6, c7, c8, c9, _⟩ := Props.C09.bip341_commits C.S hS cx.tx cx'.tx cx.nIn cx'.nIn
+      cx.spent cx'.spent ht ht' cx.annex cx'.annex _ _ wf wf' ws ws' hin hin' hn hn' hht hht' we we' e
+    refine ⟨c1, c2, c3, ?_, c5, c6, c7, c8, c9⟩
+    intro hsv
+    subst hsv
+    simp only [beq_self_eq_true, if_true, Option.some.injEq, TapExt.mk.injEq] at c4
+    exact ⟨c4.1, by have := c4.2.2; omega⟩
+  · exact Or.inr c
 
 /-- T2, the form the harness exercises: under an ALL-like hash type (no NONE / SINGLE) a segwit-v0 signature is over
     the outputs -- a transaction whose output list differs (an amount, a script, an order, a dropped output) gives the
